@@ -80,6 +80,7 @@ func report(c *rig.Check, x *runner, sen *rig.Sentinel) {
 	c.Count("rounds_started_on_evicted_swamp_with_subscribers", int64(x.nEvicted))
 	c.Count("rounds_that_emptied_the_swamp", int64(x.nDestroyed))
 	c.Count("overlapping_sends", x.overlaps)
+	c.Count("rounds_where_the_swamp_content_changed_while_idle", int64(x.nIdleChanged))
 	c.Count("removals_claimed_by_two_requests_but_reported_once", int64(x.nDoubleClaims))
 	if x.maxSenders > 1 {
 		c.Count("streams_fed_by_several_goroutines", 1)
